@@ -198,6 +198,9 @@ def make_inputs(ctx, inp_dir):
     for name, m in C.RAW_REJECTED.items():
         for syn in C.SYNTAXES:
             add("raw_" + name, syn, m[syn], "raw")
+    for name, m in C.DECISION.items():
+        for syn in C.SYNTAXES:
+            add("dec_" + name, syn, m[syn], "decision")
     nrand = 16 if ctx.tier == "quick" else 120
     for k in range(nrand):
         d = C.random_def(rng, k)
@@ -780,9 +783,10 @@ macro_rules! script_{n} {{ () => {{
     return pd, pairs, macro_paths
 
 
-def build_reject_probe(ctx, rejected):
-    """One crate, one create_device! per rejected input; `cargo check` must fail with an error at every invocation."""
-    pd = os.path.join(ctx.work, "probe_reject")
+def build_reject_probe(ctx, rejected, sub="probe_reject"):
+    """One crate, one create_device! per rejected input; `cargo check` must fail with an error at every invocation.
+    (sub="probe_decision": the same crate layout for inputs that must be ACCEPTED.)"""
+    pd = os.path.join(ctx.work, sub)
     for sub in ("src", "defs"):
         shutil.rmtree(os.path.join(pd, sub), ignore_errors=True)
         os.makedirs(os.path.join(pd, sub))
@@ -866,7 +870,34 @@ def stage_probe(ctx, inputs, adefs, lib, models, d13_open, stats):
     rej = [i for i in inputs if i["text"] is not None and i["parser"] in PARSERS and i["label"] != "odd"
            and lib.get(i["id"]) and (lib[i["id"]]["status"] != "out" or lib[i["id"]]["tokerr"])]
     if ctx.tier == "quick":
-        rej = rej[::3]
+        rej = [i for k, i in enumerate(rej) if k % 3 == 0 or i["label"] == "decision"]
+    # the decision inputs (cfg strings compared for equality) the LIBRARY accepts must be accepted by the macro too: one
+    # crate, `cargo check` must pass (D24: a propagated conjunction equalled a hand-written one under rustc's printer only)
+    for i in inputs:
+        if i["label"] == "decision" and lib.get(i["id"]):
+            got = "accepted" if (lib[i["id"]]["status"] == "out" and not lib[i["id"]]["tokerr"]) else "rejected"
+            want = C.DECISION_EXPECT[i["name"][4:]]
+            if got != want:
+                report(ctx, "cfg-decision", {"what": f"the library {got} an input whose two same-named objects "
+                                                     f"{'exist in the same builds (duplicates)' if want == 'rejected' else 'carry different cfg strings'}: "
+                                                     f"expected {want}", "failing_input": describe(i),
+                                             "implementation": {"library": got}, "model_and_spec": {"expected": want}})
+    acc_dec = [i for i in inputs if i["label"] == "decision" and lib.get(i["id"]) and lib[i["id"]]["status"] == "out" and not lib[i["id"]]["tokerr"]]
+    if acc_dec:
+        pd3, where3 = build_reject_probe(ctx, acc_dec, sub="probe_decision")
+        rc3, out3 = vlib.run(["cargo", "check", "--offline", "--message-format=short"], cwd=pd3, env=env, timeout=900)
+        stats["macro_decision_accepted_checked"] = len(acc_dec)
+        if rc3 != 0:
+            bad = None
+            for m in re.finditer(r"^src/main\.rs:(\d+):\d+: error: (.*)$", out3, flags=re.M):
+                if int(m.group(1)) in where3:
+                    bad = (where3[int(m.group(1))], m.group(2))
+                    break
+            report(ctx, "macro-decision", {"what": "an input the library (and the CLI) accepts is rejected by create_device!: the accept/reject "
+                                                   "decision depends on who runs the generator",
+                                           "failing_input": describe(bad[0]) if bad else {"crate": pd3},
+                                           "implementation": {"macro_error": bad[1] if bad else out3[-800:]},
+                                           "model_and_spec": {"library": "accepted"}})
     pd2, where = build_reject_probe(ctx, rej)
     rc, out = vlib.run(["cargo", "check", "--offline", "--message-format=short"], cwd=pd2, env=env, timeout=900)
     errlines = {}
